@@ -132,7 +132,7 @@ func GenCase(r *rand.Rand, seed int64, kind string) Case {
 		cs.PauseMs = 25
 		cs.Out.FailPlan = "none"
 		cs.Out.FlushMs = 20
-		switch r.Intn(6) {
+		switch pickDirected(r) {
 		case 5:
 			// several streams are charged at once while all processors sleep, then one
 			// processor is parked behind a held line for seconds: the others must serve
@@ -157,7 +157,7 @@ func GenCase(r *rand.Rand, seed int64, kind string) Case {
 			cs.PerSource = 10 + r.Intn(8)
 			cs.Sources = 1 + r.Intn(3)
 			cs.Readers = cs.Sources
-			cs.HookSleeps = map[string][2]int{"stream.put.beforeSignal": {230000, 45}}
+			cs.HookSleeps = map[string][2]int{"stream.put.beforeSignal": {230000, 85}}
 		case 0:
 			// an earlier action discards an event of the sequence while join
 			// holds one and the stream is momentarily empty
@@ -423,4 +423,16 @@ func RunAll(c *core.Ctx, cases []Case, perChild, workers int, handle func(Result
 			}
 		}
 	})
+}
+
+// DirectedIndex, when >= 0, selects the directed pattern round-robin (set by
+// RunProperty per generated case) instead of drawing it.
+var DirectedIndex = -1
+
+func pickDirected(r *rand.Rand) int {
+	n := r.Intn(6) // always draw: keeps the PRNG stream identical
+	if DirectedIndex >= 0 {
+		return DirectedIndex % 6
+	}
+	return n
 }
